@@ -381,6 +381,66 @@ Qed.
 Lemma discover_check_iff asked d : discover_check asked d = true <-> d = asked.
 Proof. unfold discover_check. apply String.eqb_eq. Qed.
 
+(* ------------------------------------------------------------------ every flow that hands out tokens *)
+
+(* whatever flow, router, client kind and access-token type: a JWT that is handed out names the issuer of
+   the document (of either router) served for the same request *)
+Lemma issuer_same_every_flow r r' c q k jwt fl id_iss at_iss t :
+  flow_model r c q k jwt fl = FRIssued id_iss at_iss ->
+  (id_iss = Some t \/ at_iss = Some t) -> t = doc_issuer r' c q.
+Proof.
+  unfold flow_model, token_issuer, doc_issuer. destruct (flow_ok r c k fl); [|discriminate].
+  intro H. injection H as <- <-. intros [H|H].
+  - destruct (has_id_token fl); [injection H as <-; reflexivity | discriminate].
+  - destruct (has_access_token fl && jwt); [injection H as <-; reflexivity | discriminate].
+Qed.
+
+(* an available flow does hand out tokens, and the ID token / the JWT access token carry that issuer *)
+Lemma flow_carries_issuer r c q k jwt fl :
+  flow_ok r c k fl = true ->
+  exists id_iss at_iss, flow_model r c q k jwt fl = FRIssued id_iss at_iss
+    /\ (has_id_token fl = true -> id_iss = Some (doc_issuer r c q))
+    /\ (has_access_token fl = true -> jwt = true -> at_iss = Some (doc_issuer r c q)).
+Proof.
+  intro H. unfold flow_model. rewrite H. eexists. eexists. split; [reflexivity|]. split.
+  - intros ->. reflexivity.
+  - intros -> ->. reflexivity.
+Qed.
+
+Lemma every_flow_has_a_token fl : has_id_token fl || has_access_token fl = true.
+Proof. destruct fl; reflexivity. Qed.
+
+(* tokens come only through grant types the document advertises, and the token endpoint handles them *)
+Lemma flow_through_advertised_grant r c k fl :
+  flow_ok r c k fl = true ->
+  In (grant_of fl) (doc_grants_g c)
+  /\ (grant_of fl <> GImplicit -> dispatch r c (grant_of fl) = AHandled).
+Proof.
+  unfold flow_ok. intro H. apply andb_true_iff in H. destruct H as [H _].
+  apply andb_true_iff in H. destruct H as [_ He].
+  assert (Hin : In (grant_of fl) (doc_grants_g c)).
+  { unfold doc_grants_g. rewrite !in_app_iff.
+    destruct fl; cbn [flow_enabled grant_of] in *; try rewrite He; cbn; tauto. }
+  split; [exact Hin|].
+  intro Hn. pose proof (proj1 (grants_exact r c (grant_of fl) Hn) Hin) as Hd.
+  pose proof (dispatch_never_panics r c (grant_of fl)) as Hp.
+  destruct (dispatch r c (grant_of fl)); [now contradiction Hd | reflexivity | now contradiction Hp].
+Qed.
+
+Lemma spec_flow_model r c q k jwt fl : spec_flow (issuer_of c q) (flow_model r c q k jwt fl) = true.
+Proof.
+  unfold flow_model, token_issuer. destruct (flow_ok r c k fl); [|reflexivity].
+  cbn [spec_flow]. destruct (has_id_token fl); destruct (has_access_token fl && jwt); cbn [iss_is];
+    rewrite ?String.eqb_refl; reflexivity.
+Qed.
+
+Lemma spec_flows_model r c q k jwt fls :
+  forallb (spec_flow (issuer_of c q)) (map (flow_model r c q k jwt) fls) = true.
+Proof.
+  induction fls as [|fl fls IH]; cbn [map forallb]; [reflexivity|].
+  now rewrite spec_flow_model, IH.
+Qed.
+
 (* ------------------------------------------------------------------ spec (model i) *)
 
 Definition wf_ep (e : ep) : bool :=
@@ -458,7 +518,7 @@ Qed.
 
 Lemma spec_model i : wf i = true -> spec i (model i) = true.
 Proof.
-  destruct i as [r c q probes | r c gs | r c k ch v | r c k pl q | api raw hostless o insecure | asked d]; cbn [wf model spec].
+  destruct i as [r c q probes | r c gs | r c k ch v | r c k pl q | api raw hostless o insecure | asked d | r c q k jwt fls]; cbn [wf model spec].
   - intro H. apply andb_true_iff in H. destruct H as [Hc Hp].
     unfold wf_config in Hc. apply andb_true_iff in Hc. destruct Hc as [Hc _].
     unfold doc_endpoint, doc_issuer, token_issuer.
@@ -489,6 +549,8 @@ Proof.
          rewrite V5, V6 in B; discriminate.
   - intros _. unfold discover_check. rewrite (String.eqb_sym d asked).
     destruct (String.eqb asked d); reflexivity.
+  - intros _. unfold doc_issuer. rewrite String.eqb_refl, map_length, Nat.eqb_refl.
+    rewrite spec_flows_model. reflexivity.
 Qed.
 
 Lemma nil_endpoint_both r c q n :
@@ -526,6 +588,15 @@ Example issuer_validation_nonvacuous :
   /\ validate_issuer "https://op.example.com?" (mkOracle "https" "op.example.com" false) false = IssPath
   /\ validate_issuer "https://op.example.com#" (mkOracle "https" "op.example.com" false) false = IssPath
   /\ validate_issuer "https://:8080" (mkOracle "https" "" false) false = IssMissingHost.
+Proof. repeat split; reflexivity. Qed.
+
+Example every_flow_nonvacuous :
+  forallb (flow_ok RLegacy cfg_all CBasic) all_flows = true
+  /\ flow_model RProvider cfg_all (mkRequest "req.example.com" None) CPublic true FDevice
+     = FRIssued (Some "https://op.example.com") (Some "https://op.example.com")
+  /\ flow_model RLegacy cfg_none (mkRequest "req.example.com" (Some "fwd.example.com")) CBasic true FImplicitTok
+     = FRIssued (Some "http://fwd.example.com/oidc") (Some "http://fwd.example.com/oidc")
+  /\ flow_model RLegacy cfg_none (mkRequest "req.example.com" None) CBasic true FDevice = FRNone.
 Proof. repeat split; reflexivity. Qed.
 
 Example spec_model_nonvacuous :
